@@ -221,6 +221,25 @@ def check_bin(case):
         a += b
         return a
     arith("+=", iadd, sumA, sumB)
+
+    def isub(a, b):
+        a -= b
+        return a
+    arith("-=", isub, difA, difB)
+    # unary and scalar operators agree with the same operation on the resolved value (first operand alone)
+    try:
+        va0 = resolve(svg.Length(sa), CTXA)
+        if is_num(va0):
+            for name, fn, want in (("neg", lambda a: -a, -va0), ("abs", lambda a: abs(a), abs(va0)), ("*3", lambda a: a * 3, 3 * va0),
+                                   ("3*", lambda a: 3 * a, 3 * va0), ("/4", lambda a: a / 4, va0 / 4.0)):
+                r = fn(svg.Length(sa))
+                v = resolve(r, CTXA) if not is_num(r) else r
+                if not is_num(v) or abs(v - want) > 1e-9 * max(1.0, abs(want)):
+                    dis.append({"clause": "Scalar", "op": name, "detail": "%s of Length(%r) = %r resolves to %r, expected %r" % (name, sa, r, v, want)})
+    except engine.CaseTimeout:
+        raise
+    except Exception as e:
+        dis.append({"clause": "Scalar:Raises", "detail": "scalar operators on Length(%r) raised %s: %s" % (sa, type(e).__name__, str(e)[:50])})
     if ratA != []:
         what = "Length(%r) / Length(%r)" % (sa, sb)
         try:
